@@ -30,3 +30,5 @@ Lemma ok_compression_tails :
 Proof. split; reflexivity. Qed.
 Lemma ok_nonce_sizes : (nonce_key_size, nonce_size, accept_size) = (16, 24, 28).
 Proof. reflexivity. Qed.
+Lemma ok_utf8_reject : utf8_reject = 12. Proof. reflexivity. Qed.
+Lemma ok_utf8_accept : utf8_accept = 0. Proof. reflexivity. Qed.
